@@ -43,7 +43,8 @@ R45(g, ri) == LET fs == RuleFields(g, ri) IN
               /\ (g.rules[ri].export \/ g.rules[ri].position)
 R6(g, ri) == g.rules[ri].string /\ g.rules[ri].export
 R7(g, ri) == g.rules[ri].name = "Whitespace" /\ g.rules[ri].skip
-R8(g, ri) == g.rules[ri].memoize /\ ~(\E i \in 1..Len(g.derives) : g.derives[i] = "Clone")
+\* (a @leftrec rule keeps its growth in the same kind of cache: it needs Clone just as @memoize does)
+R8(g, ri) == (g.rules[ri].memoize \/ g.rules[ri].leftrec) /\ ~(\E i \in 1..Len(g.derives) : g.derives[i] = "Clone")
 
 \* R9 / R10 on terminals
 R9(g)  == \E e \in 1..Len(g.nodes) : g.nodes[e].k = "lit" /\ g.nodes[e].ci /\
